@@ -69,6 +69,23 @@ CHECKS = {
              "compared on every case; string labels enter via an order-isomorphic integer code; axes < 32768 steps "
              "(int16 cal_indices). Print Assumptions: closed under the global context.",
         technique="Coq proof (sorted-list lemmas, gather/scatter algebra) + correspondence + metamorphic checks on the implementation"),
+    "C10": dict(
+        cat="proof",
+        text="Theorems (Props/C10.v): the literal double loop computes S; |S| <= n(n-1)/2; the variance numerator equals "
+             "n(n-1)(2n+5) - sum over tie groups t(t-1)(2t+5) and the tie-free shortcut agrees; S and var(S) are invariant under "
+             "every strictly increasing map, flip/keep under negation and time reversal (all series, all lengths); over the "
+             "reals Z flips sign, p is even, the flag is odd and equals sign(Z)*[p < alpha] given the quantile hypothesis; "
+             "Sen's slope (well-defined median) scales linearly and negates; all-nodata gives (nodata x3, -2). The binary64 "
+             "model of the gufuncs (float32/int8 stores, recorded erf call) is compared bit-for-bit with the compiled "
+             "kernels, exhaustively over all rank patterns <= 5 (7 thorough); an independent exact definition and the "
+             "metamorphic laws are evaluated on the implementation.",
+        ref="7 (C10)",
+        note="Trusted: Coq kernel + vm_compute; harness; libm erf (recorded per call, the model must reproduce the argument "
+             "bit-exactly) and scipy ndtri(0.975); hypothesis of C10_flag (critical value = alpha-quantile) is visible in its "
+             "statement. Axioms (Print Assumptions): the standard library's real-number axioms "
+             "ClassicalDedekindReals.sig_forall_dec, sig_not_dec and FunctionalExtensionality.functional_extensionality_dep for "
+             "the theorems stated over R; the Z/list theorems are closed.",
+        technique="Coq proof (induction, permutation arguments, reals) + bit-exact correspondence incl. exhaustive rank patterns"),
 }
 
 PENDING = "no check has been built for this property yet (work in progress; see DESIGN.md section 7 for the plan)"
